@@ -256,6 +256,39 @@ fn run(ctx: &RunCtx) -> Report {
             if let Some((k, d)) = bad.borrow().clone() {
                 report.violate("ro-reply", &k, d);
             }
+            // writes: the peers that answered the lookups normally flag their replies to the store
+            // requests ro=1 (acks, or 301s from all of them): those replies count for nothing
+            if rng.chance(1, 2) && ro_peers.len() < n_raw {
+                let err = if rng.chance(1, 3) { Some(*rng.pick(&[301i64, 302])) } else { None };
+                for i in 0..n_raw {
+                    rawnet.with_peer(i, |p| {
+                        p.ro_put = true;
+                        if let Some(c) = err {
+                            p.put_reply = PutReply::Error(c);
+                        }
+                    });
+                }
+                let wkind = rng.below(3);
+                let w = match wkind {
+                    0 => sim.put_immutable(reader, b"written through ro-flagged acks".to_vec()),
+                    1 => sim.put_mutable(reader, dht::MutableItem::new(&key, b"w", 77, Some(b"w")), None),
+                    _ => sim.announce_peer(reader, rng.id(), Some(4444)),
+                };
+                let done = sim.run_ops(&[w], sim.now() + 120 * SEC);
+                let (ok, conc) = sim.with_op(w, |o| match &o.outcome {
+                    Some(Outcome::PutImmutable(r)) | Some(Outcome::Announce(r)) => (r.is_ok(), false),
+                    Some(Outcome::PutMutable(r)) => (r.is_ok(), matches!(r, Err(dht::errors::PutMutableError::Concurrency(_)))),
+                    _ => (false, false),
+                });
+                if !done {
+                    report.violate("hang", "put-did-not-return", "a put answered only by ro-flagged replies did not return within 120 s".into());
+                } else if ok {
+                    report.violate("ro-reply", "ro-flagged-ack-counted", format!("write kind {wkind} returned Ok although every reply to its store requests was flagged ro=1"));
+                } else if conc {
+                    report.violate("ro-reply", "ro-flagged-error-counted", format!("put_mutable failed with a concurrency error carried only by replies flagged ro=1 ({err:?})"));
+                }
+                report.probe("writes_answered_with_ro_flag", 1);
+            }
             report.nontrivial = !ro_peers.is_empty();
             report.probe("family_ro_replies", 1);
             plan.push_str(&format!(" ro_peers={ro_peers:?}"));
@@ -355,7 +388,49 @@ fn run(ctx: &RunCtx) -> Report {
                     }
                 }
             }
-            // once a server, it must answer requests and stop marking ro
+            // once a server, it must answer requests and stop marking its own requests ro; while a
+            // client, the reverse (looked at on the wire, not through Info)
+            if let Some((_, server_mode, _, _)) = last {
+                let prober = SocketAddrV4::new(pub_ip(&mut rng), 4242);
+                let (_, plog) = logging_raw(&sim, prober);
+                let node_addr = sim.node_addr(node);
+                let reach = if situation == 1 { None } else { Some(node_addr) };
+                if let Some(a) = reach {
+                    sim.raw_send(prober, a, krpc::query(&krpc::tid_bytes(4242), "ping", krpc::ping_args(&[9u8; 20]), &krpc::MsgOpts::default()));
+                }
+                let t_probe = sim.now();
+                let o = sim.find_node(node, rng.id());
+                sim.run_ops(&[o], sim.now() + 30 * SEC);
+                sim.run_for(2 * SEC);
+                let answered = plog.borrow().iter().any(|(_, from, b)| *from == node_addr && Krpc::parse(b).map(|k| k.is_response()).unwrap_or(false));
+                let (ro_reqs, plain_reqs) = sim.with_trace(|tr| {
+                    let mut c = (0u64, 0u64);
+                    for d in tr.iter().filter(|d| d.from_host == Some(node) && d.t_send >= t_probe) {
+                        if let Some(k) = Krpc::parse(&d.bytes) {
+                            if k.is_query() {
+                                if k.ro {
+                                    c.0 += 1;
+                                } else {
+                                    c.1 += 1;
+                                }
+                            }
+                        }
+                    }
+                    c
+                });
+                if server_mode {
+                    if reach.is_some() && !answered {
+                        report.violate("adaptive", "server-mode-node-does-not-answer", format!("Info reports server_mode=true but a ping to {node_addr} got no reply (situation {situation}, explicit_server={explicit_server})"));
+                    } else if ro_reqs > 0 {
+                        report.violate("adaptive", "server-mode-node-marks-requests-ro", format!("Info reports server_mode=true but {ro_reqs} of its requests still carry ro=1 (situation {situation}, explicit_server={explicit_server})"));
+                    }
+                } else if answered {
+                    report.violate("adaptive", "client-mode-node-answers", format!("Info reports server_mode=false but the node answered a ping (situation {situation})"));
+                } else if plain_reqs > 0 {
+                    report.violate("adaptive", "client-mode-node-requests-not-ro", format!("Info reports server_mode=false but {plain_reqs} of its requests lack ro=1 (situation {situation})"));
+                }
+                report.probe("wire_mode_probes", 1);
+            }
             if let Some(d) = sim.died(node) {
                 report.violate("node-died", "adaptive-node-panicked", format!("node died: {d}"));
             }
